@@ -218,7 +218,7 @@ def filesOf : FileArg → List Nat
   | .single f => [f]
   | .bundle fs => fs
 
-theorem readAll_congr (rd rd' : Reader) (fs : List Nat) (h : ∀ f ∈ fs, rd f = rd' f) :
+private theorem readAll_congr (rd rd' : Reader) (fs : List Nat) (h : ∀ f ∈ fs, rd f = rd' f) :
     readAll rd fs = readAll rd' fs := by
   induction fs with
   | nil => rfl
